@@ -125,7 +125,7 @@ Proof. vm_compute; reflexivity. Qed.
    acceptEvent / acceptPublishTopic / acceptQuery and the upsert arm of topic.go *)
 Definition sample : entity :=
   mkE (bs "foo.v1") (bs "Foo") [] [mkK (mkU (bs "fooId") (KKey true None None) false false) false] []
-      [bs "ACTIVE"] [mkEv (bs "Create") []] [] [mkS [] []] (Some (mkQ true [])) [].
+      [bs "ACTIVE"] [mkEv (bs "Create") []] [] [mkS [] []] (Some (mkQ true [] false)) [].
 Definition externals (cs : list component) : list (bytes * bytes) :=
   flat_map (fun f => match f_type f with
                      | TObject (c :: p) n => [(c :: p, n)]
@@ -138,4 +138,339 @@ Definition gen_externals : list (bytes * bytes) :=
 Lemma model_externals_agree :
   forallb (pair_in gen_externals) (externals (expand_with sample [])) = true
   /\ forallb (pair_in (externals (expand_with sample []))) gen_externals = true.
+Proof. split; vm_compute; reflexivity. Qed.
+
+(* ---- the tables above, DERIVED FROM THE MODEL ---------------------------------------------------------
+   The lemmas so far compare the regenerated tables with tables typed into this file.  The ones
+   below compute the same facts from [expand_with] on a probe declaration, so that the model (not
+   a transcript of it) is what has to agree with entity.go. *)
+Local Open Scope list_scope.
+Definition probe : entity :=
+  mkE (bs "foo.v1") (bs "Foo") [] [mkK (mkU (bs "fooId") (KKey true None None) false false) false] []
+      [bs "ACTIVE"] [mkEv (bs "Create") []]
+      [mkC None None [mkM (bs "DoIt") 2 (bs "x") [] (Some [])]]
+      [mkS [] []] (Some (mkQ true [] false)) [].
+Definition probe_cs : list component := expand_with probe [].
+
+Fixpoint drop_prefix (p s : bytes) : option bytes :=
+  match p, s with
+  | [], _ => Some s
+  | x :: p', y :: s' => if x =? y then drop_prefix p' s' else None
+  | _ :: _, [] => None
+  end.
+Definition comp_name (c : component) : bytes :=
+  match c with CMsg _ m => m_name m | CEnum n _ => n | CSvc _ s => sv_name s end.
+
+(* fmt.Sprintf with one %s *)
+Fixpoint sprintf1 (fmt : list ascii) (arg : bytes) : bytes :=
+  match fmt with
+  | [] => []
+  | "%"%char :: "s"%char :: r => arg ++ map N_of_ascii r
+  | c :: r => N_of_ascii c :: sprintf1 r arg
+  end.
+Definition fmt_of (f fmt : string) : bool := pair_mem EntityGen.sprintf_formats (f, fmt).
+Definition lit_of (f lit : string) : bool := pair_mem EntityGen.suffix_sites (f, lit).
+
+(* (1) run order: the i-th function of entityNode.run defines the i-th landmark of the model's output:
+   the six schemas by the componentName literal that function uses, the services / topics by the
+   Sprintf format that function uses *)
+Definition landmark_names : list bytes :=
+  flat_map (fun c => match c with
+    | CMsg 0 m => [m_name m]
+    | CEnum n _ => [n]
+    | CSvc _ s => [sv_name s]
+    | _ => [] end) probe_cs.
+Definition expected_landmarks : list bytes :=
+  let X := bs "Foo" in
+  match EntityGen.run_order with
+  | [f1; f2; f3; f4; f5; f6; f7; f8; f9; f10] =>
+      let schema f lit := if lit_of f lit then [X ++ bs lit] else [] in
+      let by_fmt f fmt suffix := if fmt_of f fmt then [sprintf1 (list_ascii_of_string fmt) X ++ bs suffix] else [] in
+      schema f1 "Keys" ++ schema f2 "Data" ++ schema f3 "Status" ++ schema f4 "State"
+      ++ schema f5 "EventType" ++ schema f6 "Event"
+      ++ by_fmt f7 "%sQuery" "Service" ++ by_fmt f8 "%sCommand" "Service"
+      ++ by_fmt f9 "%sPublish" "Topic" ++ by_fmt f10 "%sSummary" "Topic"
+  | _ => []
+  end.
+Lemma run_order_from_model : landmark_names = expected_landmarks.
+Proof. vm_compute; reflexivity. Qed.
+
+(* (2) the literal property names each accept function writes are the names the model's
+   message for that function carries *)
+Definition lits_of (f : string) : list bytes :=
+  flat_map (fun p => if String.eqb (fst p) f then [bs (snd p)] else []) EntityGen.property_names.
+Definition same_names (a b : list bytes) : bool :=
+  forallb (fun x => existsb (bytes_eqb x) b) a && forallb (fun x => existsb (bytes_eqb x) a) b.
+Definition msg_named (n : string) : list bytes :=
+  flat_map (fun c => match c with
+    | CMsg _ m => if bytes_eqb (m_name m) (bs n) then map f_json (m_fields m) else []
+    | _ => [] end) probe_cs.
+Lemma property_names_from_model :
+  same_names (msg_named "FooState") (lits_of "acceptState") = true
+  /\ same_names (msg_named "FooEvent") (lits_of "acceptEvent") = true
+  /\ same_names (msg_named "FooEventMessage") (lits_of "acceptPublishTopic") = true
+  /\ same_names (filter (fun n => negb (bytes_eqb n (bs "fooId")) && negb (bytes_eqb n (bs "foo")))
+                        (msg_named "FooGetRequest" ++ msg_named "FooGetResponse" ++ msg_named "FooListRequest"
+                         ++ msg_named "FooListResponse" ++ msg_named "FooEventsRequest" ++ msg_named "FooEventsResponse"))
+                (lits_of "acceptQuery") = true.
+Proof. repeat split; vm_compute; reflexivity. Qed.
+
+(* (3) names built with Sprintf: the model's name is the code's format applied to ToCamel(name) *)
+Definition svc_methods (n : string) : list bytes :=
+  flat_map (fun c => match c with
+    | CSvc _ s => if bytes_eqb (sv_name s) (bs n) then map mt_name (sv_methods s) else []
+    | _ => [] end) probe_cs.
+Lemma formats_from_model :
+  fmt_of "acceptQuery" "%sGet" && fmt_of "acceptQuery" "%sList" && fmt_of "acceptQuery" "%sEvents" = true
+  /\ svc_methods "FooQueryService" =
+       map (fun f => sprintf1 (list_ascii_of_string f) (bs "Foo")) ["%sGet"; "%sList"; "%sEvents"]
+  /\ fmt_of "acceptPublishTopic" "%sEvent" = true
+  /\ svc_methods "FooPublishTopic" = [sprintf1 (list_ascii_of_string "%sEvent") (bs "Foo")]
+  /\ fmt_of "acceptQuery" "/%s/q" && fmt_of "acceptCommands" "/%s/c" = true
+  /\ existsb (fun c => match c with
+                       | CSvc _ s => existsb (fun m => has_prefix (sprintf1 (list_ascii_of_string "/%s/q") (base_url probe)) (mt_path m)) (sv_methods s)
+                       | _ => false end) probe_cs = true
+  /\ existsb (fun c => match c with
+                       | CSvc _ s => existsb (fun m => has_prefix (sprintf1 (list_ascii_of_string "/%s/c") (base_url probe)) (mt_path m)) (sv_methods s)
+                       | _ => false end) probe_cs = true.
+Proof. repeat split; vm_compute; reflexivity. Qed.
+
+(* (4) entity parts: the psm part numbers of the model's messages are the EntityPart constants the
+   accept functions set (ENTITY_PART_KEYS = 1, STATE = 2, EVENT = 3, DATA = 4: schema.proto) *)
+Definition part_number (s : string) : N :=
+  if String.eqb s "EntityPart_KEYS" then 1 else if String.eqb s "EntityPart_STATE" then 2
+  else if String.eqb s "EntityPart_EVENT" then 3 else if String.eqb s "EntityPart_DATA" then 4 else 0.
+Definition model_parts : list (bytes * N) :=
+  flat_map (fun c => match c with
+    | CMsg _ m => match m_psm m with Some (_, p) => [(m_name m, p)] | None => [] end
+    | _ => [] end) probe_cs.
+Definition gen_parts : list (bytes * N) :=
+  map (fun p => (bs "Foo" ++ match drop_prefix (bs "accept") (bs (fst p)) with Some s => s | None => [] end,
+                 part_number (snd p))) EntityGen.entity_parts.
+Lemma entity_parts_from_model :
+  forallb (fun p => existsb (fun q => bytes_eqb (fst p) (fst q) && (snd p =? snd q)) gen_parts) model_parts = true
+  /\ forallb (fun p => existsb (fun q => bytes_eqb (fst p) (fst q) && (snd p =? snd q)) model_parts) gen_parts = true.
+Proof. split; vm_compute; reflexivity. Qed.
+
+(* ======================================================================================================
+   (5)-(8) (ent3): the REMAINING hand-typed tables, derived from the model.  A second probe whose names
+   tell the four strcase functions apart; its components are cut into one segment per function of
+   entityNode.run (by file and by the service that closes a group), and each regenerated table is
+   compared with what [expand_with] / [client_view] / [default_filters] compute on the probe. *)
+Definition probe2 : entity :=
+  mkE (bs "acme.pkg.v1") (bs "fooBar_baz") []
+      [mkK (mkU (bs "idOne") (KKey true None None) false false) false;
+       mkK (mkU (bs "tenant_id") (KKey false None None) false false) true]
+      [mkU (bs "name") (KScalar 9 (bs "string")) false false]
+      [bs "ACTIVE"]
+      [mkEv (bs "DoThing") [mkU (bs "note") (KScalar 9 (bs "string")) false false]]
+      [mkC None None [mkM (bs "Touch") 2 (bs "t") [] (Some [])];
+       mkC (Some (bs "Admin")) (Some (bs "adm")) [mkM (bs "Purge") 2 (bs "p") [] (Some [])]]
+      [mkS [] []; mkS (bs "small_view") []]
+      (Some (mkQ true [bs "ACTIVE"] false)) [].
+Definition probe2_filters : list bytes :=
+  match default_filters probe2 [bs "ACTIVE"] with Some l => l | None => [] end.
+Definition probe2_cs : list component := expand_with probe2 probe2_filters.
+
+(* the strcase function a table entry names, applied *)
+Definition apply_fn (fn : string) (s : bytes) : bytes :=
+  if String.eqb fn "ToCamel" then to_camel s
+  else if String.eqb fn "ToLowerCamel" then to_lower_camel s
+  else if String.eqb fn "ToSnake" then to_snake s
+  else if String.eqb fn "ToScreamingSnake" then to_screaming_snake s
+  else if String.eqb fn "ToKebab" then to_kebab s
+  else [].
+(* the strcase functions the code calls in function [f], without repetitions *)
+Fixpoint dedup (l : list string) : list string :=
+  match l with
+  | [] => []
+  | x :: r => if existsb (String.eqb x) r then dedup r else x :: dedup r
+  end.
+Definition fns_of (f : string) : list string :=
+  dedup (flat_map (fun p => if String.eqb (fst p) f then [snd p] else []) EntityGen.strcase_calls).
+Definition the_fn (f : string) : string := match fns_of f with [x] => x | _ => "" end.
+
+(* fmt.Sprintf with two %s *)
+Fixpoint sprintf2 (fmt : list ascii) (a b : bytes) : bytes :=
+  match fmt with
+  | [] => []
+  | "%"%char :: "s"%char :: r => a ++ sprintf1 r b
+  | c :: r => N_of_ascii c :: sprintf2 r a b
+  end.
+Definition sp1 (fmt : string) (a : bytes) : bytes := sprintf1 (list_ascii_of_string fmt) a.
+Definition sp2 (fmt : string) (a b : bytes) : bytes := sprintf2 (list_ascii_of_string fmt) a b.
+
+(* ---- segments: which components each function of run emits -------------------------------------------- *)
+Definition in_file (file : N) (c : component) : bool :=
+  match c with CMsg f _ => f =? file | CEnum _ _ => file =? 0 | CSvc f _ => f =? file end.
+Definition is_svc (c : component) : bool := match c with CSvc _ _ => true | _ => false end.
+(* up to and including the first service / everything after it *)
+Fixpoint upto_svc (l : list component) : list component :=
+  match l with [] => [] | c :: r => if is_svc c then [c] else c :: upto_svc r end.
+Fixpoint after_svc (l : list component) : list component :=
+  match l with [] => [] | c :: r => if is_svc c then r else after_svc r end.
+Definition file_cs (file : N) : list component := filter (in_file file) probe2_cs.
+Definition segment (i : nat) : list component :=
+  match i with
+  | 6%nat => upto_svc (file_cs 1)           (* acceptQuery *)
+  | 7%nat => after_svc (file_cs 1)          (* acceptCommands *)
+  | 8%nat => upto_svc (file_cs 2)           (* acceptPublishTopic *)
+  | 9%nat => after_svc (file_cs 2)          (* acceptSummaryTopics *)
+  | _ => match nth_error (file_cs 0) i with Some c => [c] | None => [] end
+  end.
+Lemma segments_cover : concat (map segment (seq 0 10)) = probe2_cs.
+Proof. vm_compute; reflexivity. Qed.
+
+(* ---- (5) componentName / innerRef literals ------------------------------------------------------------
+   the names a segment DEFINES in the main package and the local schemas its fields REFER to, with the
+   entity prefix removed, are exactly the literals the function passes to componentName / innerRef
+   (references into a nested type, built with Sprintf("%s.%s"), are (7)'s) *)
+Definition X2 : bytes := to_camel (e_name probe2).
+Definition has_dot (s : bytes) : bool := existsb (fun c => c =? 46) s.
+Definition local_ref (t : otype) : list bytes :=
+  match t with
+  | TObject [] n => [n] | TOneof [] n => [n] | TEnum [] n => [n]
+  | _ => [] end.
+Definition seg_names (seg : list component) : list bytes :=
+  flat_map (fun c => match c with
+    | CMsg 0 m => [m_name m] | CEnum n _ => [n] | _ => [] end) seg
+  ++ filter (fun n => negb (has_dot n)) (flat_map (fun f => local_ref (f_type f)) (fields_of seg)).
+Definition seg_suffixes (seg : list component) : list bytes :=
+  flat_map (fun n => match drop_prefix X2 n with Some s => [s] | None => [n] end) (seg_names seg).
+Definition suffix_lits (f : string) : list bytes :=
+  flat_map (fun p => if String.eqb (fst p) f then [bs (snd p)] else []) EntityGen.suffix_sites.
+Definition segment_matches (i : nat) : bool :=
+  match nth_error EntityGen.run_order i with
+  | Some f => same_names (seg_suffixes (segment i)) (suffix_lits f)
+  | None => false
+  end.
+(* acceptCommands and acceptSummaryTopics call componentName nowhere and their segments refer to no
+   generated schema; the other eight agree literal by literal *)
+Lemma suffix_sites_from_model : forallb segment_matches (seq 0 10) = true.
+Proof. vm_compute; reflexivity. Qed.
+
+(* ---- (6) strcase calls ----------------------------------------------------------------------------------
+   every name the model computes on the probe is the strcase function the code calls in that function,
+   applied to the declared name; every function of entity.go with a strcase call is covered *)
+Definition svc_named (n : bytes) : option osvc :=
+  match flat_map (fun c => match c with CSvc _ s => if bytes_eqb (sv_name s) n then [s] else [] | _ => [] end) probe2_cs with
+  | s :: _ => Some s | [] => None end.
+Definition msg_fields2 (n : bytes) : list ofield :=
+  flat_map (fun c => match c with CMsg _ m => if bytes_eqb (m_name m) n then m_fields m else [] | _ => [] end) probe2_cs.
+Definition status_enum_values : list bytes :=
+  flat_map (fun c => match c with CEnum _ vs => map fst vs | _ => [] end) (segment 2).
+Definition the_status_literal : bytes := match EntityGen.status_literals with [l] => bs l | _ => [] end.
+Definition nm := e_name probe2.
+Definition topic_role_of (s : osvc) : N := match sv_ann s with STopic _ r _ => r | _ => 0 end.
+Definition same_strings (a b : list string) : bool :=
+  forallb (fun x => existsb (String.eqb x) b) a && forallb (fun x => existsb (String.eqb x) a) b.
+
+Definition strcase_calls_from_model_stmt : Prop :=
+  (* componentName: ToCamel(name) ++ ToCamel(suffix) *)
+  fns_of "componentName" = ["ToCamel"]
+  /\ component_name probe2 (bs "event_type") = apply_fn (the_fn "componentName") nm ++ apply_fn (the_fn "componentName") (bs "event_type")
+  (* fullName: the entity name of the topics *)
+  /\ full_name probe2 = sp2 "%s.%s" (e_pkg probe2) (apply_fn (the_fn "fullName") nm)
+  (* file.go: entityNode.name, the annotation; run: the default base path *)
+  /\ snake_name probe2 = apply_fn EntityGen.entity_name_function nm
+  /\ base_url probe2 = bs "acme/pkg/v1/" ++ apply_fn (the_fn "run") nm
+  (* acceptStatus / findStatus: prefix = fn(name) ++ "_STATUS_", for the enum values and the default filters *)
+  /\ status_enum_values = [apply_fn (the_fn "acceptStatus") nm ++ the_status_literal ++ bs "UNSPECIFIED";
+                           apply_fn (the_fn "acceptStatus") nm ++ the_status_literal ++ bs "ACTIVE"]
+  /\ probe2_filters = [apply_fn (the_fn "findStatus") nm ++ the_status_literal ++ bs "ACTIVE"]
+  (* acceptEventOneof: the option name *)
+  /\ map f_json (msg_fields2 (X2 ++ bs "EventType")) = [apply_fn (the_fn "acceptEventOneof") (bs "DoThing")]
+  (* acceptCommands: the default command service *)
+  /\ (exists s, svc_named (sp1 "%sCommand" (apply_fn (the_fn "acceptCommands") nm) ++ bs "Service") = Some s
+                /\ map mt_name (sv_methods s) = [bs "Touch"])
+  (* acceptSummaryTopics: unnamed and named summaries *)
+  /\ (exists s t, svc_named (to_camel (sp1 "%sSummary" (apply_fn (the_fn "acceptSummaryTopics") nm)) ++ bs "Topic") = Some s
+        /\ svc_named (to_camel (sp2 "%s%s" (apply_fn (the_fn "acceptSummaryTopics") nm)
+                                           (apply_fn (the_fn "acceptSummaryTopics") (bs "small_view"))) ++ bs "Topic") = Some t
+        /\ topic_role_of s = 3 /\ topic_role_of t = 3)
+  (* acceptPublishTopic *)
+  /\ (exists s, svc_named (to_camel (sp1 "%sPublish" (apply_fn (the_fn "acceptPublishTopic") nm)) ++ bs "Topic") = Some s
+        /\ map mt_name (sv_methods s) = [sp1 "%sEvent" (apply_fn (the_fn "acceptPublishTopic") nm)]
+        /\ topic_role_of s = 4)
+  (* acceptQuery: ToCamel(ent.name) for the service and its methods, ToLowerCamel(ent.name) for the
+     entity's property in the Get / List responses *)
+  /\ same_strings (fns_of "acceptQuery") ["ToCamel"; "ToLowerCamel"] = true
+  /\ (exists s, svc_named (sp1 "%sQuery" (apply_fn "ToCamel" (snake_name probe2)) ++ bs "Service") = Some s
+        /\ map mt_name (sv_methods s) = map (fun f => sp1 f (apply_fn "ToCamel" (snake_name probe2))) ["%sGet"; "%sList"; "%sEvents"]%string)
+  /\ map f_json (firstn 1 (msg_fields2 (sp1 "%sGet" (apply_fn "ToCamel" (snake_name probe2)) ++ bs "Response")))
+     = [apply_fn "ToLowerCamel" (snake_name probe2)]
+  (* and no other function of entity.go calls strcase *)
+  /\ same_strings (dedup (map fst EntityGen.strcase_calls))
+       ["componentName"; "fullName"; "run"; "acceptStatus"; "findStatus"; "acceptEventOneof"; "acceptCommands";
+        "acceptSummaryTopics"; "acceptPublishTopic"; "acceptQuery"] = true.
+Lemma strcase_calls_from_model : strcase_calls_from_model_stmt.
+Proof.
+  unfold strcase_calls_from_model_stmt.
+  repeat match goal with
+         | |- _ /\ _ => split
+         | |- exists _, _ => eexists
+         end; vm_compute; reflexivity.
+Qed.
+
+(* ---- (7) Sprintf formats ------------------------------------------------------------------------------------
+   every name / path the model builds is the code's format applied (the formats are looked up in the
+   regenerated table by function; (3) and (6) cover %sGet %sList %sEvents %sEvent %sCommand %sSummary %s%s
+   %sPublish %sQuery and fullName's %s.%s) *)
+Definition fmt_in (f fmt : string) : bool := pair_mem EntityGen.sprintf_formats (f, fmt).
+Definition method_paths (svc : bytes) : list bytes :=
+  match svc_named svc with Some s => map mt_path (sv_methods s) | None => [] end.
+Definition client_paths : list bytes := map snd (ce_query_methods (client_view probe2)).
+Definition topic_fmt (i : nat) : string := nth i EntityGen.topic_formats "".
+
+Definition formats_from_model2_stmt : Prop :=
+  (* acceptEventOneof: the option refers to the type nested in the oneof, "%s.%s" of the two names *)
+  fmt_in "acceptEventOneof" "%s.%s" = true
+  /\ map f_type (msg_fields2 (X2 ++ bs "EventType")) = [TObject [] (sp2 "%s.%s" (X2 ++ bs "EventType") (bs "DoThing"))]
+  (* acceptCommands: base path of the default / of a command with basePath *)
+  /\ fmt_in "acceptCommands" "/%s/c" && fmt_in "acceptCommands" "/%s/%s" = true
+  /\ method_paths (bs "FooBarBazCommandService") = [http_rule_path (path_join (sp1 "/%s/c" (base_url probe2)) (bs "t"))]
+  /\ method_paths (bs "AdminCommandService") = [http_rule_path (path_join (sp2 "/%s/%s" (base_url probe2) (bs "adm")) (bs "p"))]
+  (* acceptQuery: base path and the ":key" parts of the Get / List / Events paths (the client's view
+     keeps the ":name" form) *)
+  /\ fmt_in "acceptQuery" "/%s/q" && fmt_in "acceptQuery" ":%s" = true
+  /\ client_paths =
+       [path_join (sp1 "/%s/q" (base_url probe2)) (join [47] [sp1 ":%s" (bs "idOne"); sp1 ":%s" (bs "tenant_id")]);
+        path_join (sp1 "/%s/q" (base_url probe2)) (join [47] [sp1 ":%s" (bs "tenant_id")]);
+        path_join (sp1 "/%s/q" (base_url probe2)) (join [47] [sp1 ":%s" (bs "idOne"); sp1 ":%s" (bs "tenant_id"); bs "events"])]
+  (* topic.go acceptTopic: message and service names of the publish and the two upsert topics *)
+  /\ map comp_name (segment 8 ++ segment 9) =
+       flat_map (fun mt => [sp1 (topic_fmt 0) (fst mt); sp1 (topic_fmt 1) (to_camel (snd mt))])
+         [(X2 ++ bs "Event", X2 ++ bs "Publish"); (X2 ++ bs "Summary", X2 ++ bs "Summary");
+          (X2 ++ bs "SmallView", X2 ++ bs "SmallView")]
+  (* coverage: entity.go has no Sprintf format beyond the ones tied here, in (3) and in (6), and the two
+     description texts of the topic messages *)
+  /\ forallb (fun p => pair_mem
+       [("fullName", "%s.%s"); ("acceptEventOneof", "%s.%s");
+        ("acceptCommands", "%sCommand"); ("acceptCommands", "/%s/%s"); ("acceptCommands", "/%s/c");
+        ("acceptSummaryTopics", "%sSummary"); ("acceptSummaryTopics", "%s%s");
+        ("acceptSummaryTopics", "Publishes summary output of state for the %s entity");
+        ("acceptPublishTopic", "%sPublish"); ("acceptPublishTopic", "%sEvent");
+        ("acceptPublishTopic", "Publishes all events for the %s entity");
+        ("acceptQuery", ":%s"); ("acceptQuery", "%sGet"); ("acceptQuery", "%sList"); ("acceptQuery", "%sEvents");
+        ("acceptQuery", "/%s/q"); ("acceptQuery", "%sQuery")] p) EntityGen.sprintf_formats = true.
+Lemma formats_from_model2 : formats_from_model2_stmt.
+Proof. unfold formats_from_model2_stmt. repeat match goal with |- _ /\ _ => split end; vm_compute; reflexivity. Qed.
+
+(* ---- (8) property names, for the second probe too (two keys, one of them a shard key) -------------------
+   the literal `Name:` values of each accept function are the properties of that function's segment that
+   the user did not declare *)
+Definition user_names : list bytes := [bs "idOne"; bs "tenant_id"; bs "name"; bs "note"].
+Definition seg_props (i : nat) : list bytes :=
+  filter (fun n => negb (existsb (bytes_eqb n) user_names)
+                   && negb (bytes_eqb n (to_lower_camel (snake_name probe2))))
+         (flat_map (fun c => match c with CMsg _ m => map f_json (m_fields m) | _ => [] end) (segment i)).
+Definition prop_lits (f : string) : list bytes :=
+  flat_map (fun p => if String.eqb (fst p) f then [bs (snd p)] else []) EntityGen.property_names.
+Lemma property_names_from_model2 :
+  forallb (fun i => match nth_error EntityGen.run_order i with
+                    | Some f => same_names (seg_props i) (prop_lits f)
+                    | None => false end) [3; 5; 6; 8]%nat = true
+  (* and no other function writes a literal property name *)
+  /\ same_strings (dedup (map fst EntityGen.property_names))
+                  (flat_map (fun i => match nth_error EntityGen.run_order i with Some f => [f] | None => [] end) [3; 5; 6; 8]%nat) = true.
 Proof. split; vm_compute; reflexivity. Qed.
